@@ -21,7 +21,7 @@ from vzstatic import cfg as cfgmod
 from vzstatic import flow
 from vzstatic.index import FuncInfo, dotted
 from vzstatic.selftest import Variant
-from vzstatic.source import AnalysisError, loc, unparse
+from vzstatic.source import AnalysisError, ancestors, loc, unparse
 from vzstatic.svc import Svc, where
 
 MANIFEST = {
@@ -359,6 +359,34 @@ def r7_engine_config(ctx, svc: Svc) -> None:
           bad = k
         if k.arg in ('execution_options', 'connect_args') and 'AUTOCOMMIT' in txt:
           bad = k
+      if is_engine and bad is None:
+        # keyword arguments that are not spelled out (`**kwargs`) are followed to the dict they come from
+        fn_ = next((a for a in ancestors(c) if isinstance(a, ast.FunctionDef)), tree)
+        for k in c.keywords:
+          if k.arg is not None:
+            continue
+          keys = set()
+          if isinstance(k.value, ast.Dict):
+            keys |= {x.value for x in k.value.keys if isinstance(x, ast.Constant)}
+          elif isinstance(k.value, ast.Name):
+            for x in ast.walk(fn_):
+              if isinstance(x, ast.Assign) and any(isinstance(t, ast.Name) and t.id == k.value.id for t in x.targets) \
+                  and isinstance(x.value, ast.Dict):
+                keys |= {y.value for y in x.value.keys if isinstance(y, ast.Constant)}
+                if any(y is None for y in x.value.keys):
+                  keys.add('?')
+              elif isinstance(x, ast.Assign) and any(isinstance(t, ast.Subscript) and isinstance(t.value, ast.Name)
+                                                    and t.value.id == k.value.id for t in x.targets):
+                for t in x.targets:
+                  if isinstance(t, ast.Subscript):
+                    keys.add(t.slice.value if isinstance(t.slice, ast.Constant) else '?')
+              elif isinstance(x, ast.Call) and isinstance(x.func, ast.Attribute) and isinstance(x.func.value, ast.Name) \
+                  and x.func.value.id == k.value.id and x.func.attr in ('update', 'setdefault'):
+                keys.add('?')
+          else:
+            keys.add('?')
+          if keys & {'isolation_level', 'autocommit', 'execution_options', '?'}:
+            bad = k
       if is_engine or bad is not None:
         ctx.check(bad is None, 'R7', f'{f}: {d or c.func.attr}(...)', c,
                   'transactional (no autocommit)',
@@ -367,6 +395,21 @@ def r7_engine_config(ctx, svc: Svc) -> None:
                   'leaves a torn update)', construct=bad if bad is not None else c, func=f)
   if n_engines < 1:
     raise AnalysisError('no sqlalchemy create_engine call found in the service package')
+  # SQLite durability pragmas: the rollback journal / synchronous writes are what makes a multi-statement
+  # transaction all-or-nothing across a crash
+  import re as _re
+  for f in files:
+    tree = ctx.src.parse(f)
+    for x in ast.walk(tree):
+      if isinstance(x, ast.Constant) and isinstance(x.value, str) and 'pragma' in x.value.lower():
+        m = _re.search(r'pragma\s+(journal_mode|synchronous|locking_mode)\s*=\s*(\w+)', x.value, _re.I)
+        weak = m is not None and (
+            (m.group(1).lower() == 'journal_mode' and m.group(2).upper() in ('MEMORY', 'OFF')) or
+            (m.group(1).lower() == 'synchronous' and m.group(2).upper() in ('OFF', '0')))
+        ctx.check(not weak, 'R7', f'{f}: `{x.value[:50]}`', x, 'durability-neutral pragma',
+                  f'`{x.value[:60]}` removes the on-disk rollback journal / synchronous writes: a crash inside a transaction that has '
+                  'already spilled pages to the database file (a large delete_study / update_metadata) leaves a torn, unrecoverable update',
+                  construct=f'pragma:{x.value[:40]}', func=f)
 
 
 def _short(n: cfgmod.Node) -> str:
